@@ -24,6 +24,7 @@ class Program:
         self.logger = logging.getLogger("x816")
         self.dump_symbols = dump_symbols
         self.parser = parser or MZParser(self.resolver)
+        self.label_pass_addresses: list[int] = []
 
     def get_physical_address(self, logical_address: int) -> int:
         physical_address = self.resolver.get_bus().get_address(logical_address).physical
@@ -47,11 +48,13 @@ class Program:
         self.resolver.last_used_scope = 0
 
         previous_pc = self.resolver.reloc_address
+        # address after each node as seen by the label pass, emit() checks that the emitted code agrees.
+        self.label_pass_addresses = []
 
         for node in program_nodes:
-            if isinstance(node, SymbolNode):
-                continue
-            previous_pc = node.pc_after(previous_pc)
+            if not isinstance(node, SymbolNode):
+                previous_pc = node.pc_after(previous_pc)
+            self.label_pass_addresses.append(previous_pc.logical_value)
 
         self.resolver_reset()
 
@@ -65,7 +68,7 @@ class Program:
     def emit(self, program: list[NodeProtocol], writer: Writer) -> None:
         current_block = b""
         current_block_addr = self.resolver.pc
-        for node in program:
+        for index, node in enumerate(program):
             node_bytes = node.emit(self.resolver.reloc_address)
 
             if node_bytes:
@@ -82,6 +85,16 @@ class Program:
             if isinstance(node, IncludeIpsNode):
                 for block_addr, block in node.blocks:
                     writer.write_block(block, block_addr)
+
+            if (
+                index < len(self.label_pass_addresses)
+                and self.label_pass_addresses[index] != self.resolver.reloc_address.logical_value
+            ):
+                raise RuntimeError(
+                    f"{node} does not emit the size used to compute the labels "
+                    f"(0x{self.resolver.reloc_address.logical_value:06x} != 0x{self.label_pass_addresses[index]:06x}), "
+                    "use an explicit size."
+                )
 
         if len(current_block) > 0:
             writer.write_block(current_block, current_block_addr)
